@@ -513,6 +513,8 @@ def r25(ctx: Ctx) -> RuleReport:
                     want = f"{optparam}['{guard_of[fq]}']"
                     good = guards_true == {want} and not guards_false
                     crossed = bool(guards_true) and want not in guards_true
+                    # guarded by its own option, but also switched off by another one: with both options given the documented step is skipped
+                    crossed = crossed or (guards_true == {want} and bool(guards_false))
                     rep.add(k, fi.loc(call), 'ok' if good else ('violation' if crossed else 'undecided'),
                             '' if good else f'runs under {sorted(guards_true) or "no option"}'
                                             f'{" and not " + str(sorted(guards_false)) if guards_false else ""}, documented guard is {want}')
